@@ -336,6 +336,8 @@ def retry_cases():
     for header in (0, 7, CHUNK):
       for first in (['FAIL'], ['DATA!'], ['INFO', 'FAIL'], ['FAIL', 'FAIL']):
         yield {'retry': 1, 'size': size, 'header': header, 'first': first, 'retries': len([x for x in first if x != 'INFO'])}
+      # the same without source_len: the image is whatever the stream still holds
+      yield {'retry': 1, 'size': size, 'header': header, 'first': ['FAIL'], 'retries': 1, 'no_len': True}
 
 
 def check_retry(case):
@@ -362,7 +364,7 @@ def check_retry(case):
   try:
     fd = fastboot_device.FastbootDevice.connect(dev, num_retries=case['retries'])
     try:
-      got = ('ok', fd.download(stream, source_len=size))
+      got = ('ok', fd.download(stream, **({} if case.get('no_len') else {'source_len': size})))
     except (Exception, fk.RunawayError) as e:  # pylint: disable=broad-except
       got = ('exc', type(e).__name__, str(e)[:80])
   finally:
